@@ -1,1 +1,192 @@
+/* unit scq - detail/nikolaev_scq.hpp (C05 nikolaev half, C04).  Only declarations, the representation invariant Inv_S
+ * (as a builder and as a checker), the abstract contract (scq_contract.h) and harnesses; all function bodies are in lowered.h */
 #include "xv.h"
+int xv_threw; uint64_t xv_clock, xv_rmw_old; _Bool xv_cas_ok;
+typedef uint64_t index_t; typedef int64_t indexdiff_t; typedef uint64_t value_t;
+#ifndef CAP
+#define CAP 2
+#endif
+#define N (2 * CAP)                 /* slots of the ring */
+#define MASK ((uint64_t)(2 * N - 1))  /* is_safe_and_value_mask */
+#ifndef Nonempty
+#define Nonempty 0                  /* the library instantiates enqueue/dequeue only with Nonempty = false */
+#endif
+#ifndef Finalizable
+#define Finalizable 0
+#endif
+#ifndef PopRetries
+#define PopRetries 1
+#endif
+#ifndef G
+#define G 0                         /* max number of tail tickets burnt by enqueue attempts on a finalized ring */
+#endif
+#define MAXPOS ((uint64_t)1 << 61)
+struct scq { index_t _head; int64_t _threshold; index_t _tail; uint64_t _data[N]; uint64_t xv_alloc; };
+#define XV_INIT__head(self, v)      ((self)->_head = (v))
+#define XV_INIT__threshold(self, v) ((self)->_threshold = (v))
+#define XV_INIT__tail(self, v)      ((self)->_tail = (v))
+#define XV_INIT__data(self, cnt)    ((self)->xv_alloc = (cnt))    /* number of words allocated for _data */
+#include "scq_contract.h"
+#include "lowered.h"
+
+/* ------------------------------------------------------------------ Inv_S
+ * H = _head/2, T = _tail/2 (LSB of _tail = finalized).  T = H + cnt + gap; gap = 0 unless finalized.
+ * The N consecutive positions H .. H+N-1 cover every slot exactly once (scq.remap.bijective):
+ *   position p = H+d, d <  cnt : slot(p) = (cycle(p), any safe bit, vals[d])
+ *   position p = H+d, d >= cnt : slot(p) = (a cycle older than cycle(p) or the initial all-ones word, any safe bit, bottom)
+ * threshold = 3*CAP-1 when cnt > 0, in [-1, 3*CAP-1] otherwise. */
+uint64_t in_H; unsigned in_cnt, in_gap; _Bool in_fin; int64_t in_th; uint64_t in_val[CAP]; uint64_t in_oc[N]; _Bool in_safe[N]; uint64_t in_v;
+static size_t RS(void) { return scq_calc_remap_shift(CAP); }
+static void havoc_inputs(void) {
+  in_H = nondet_u64(); XV_ASSUME(in_H < MAXPOS);
+  in_cnt = nondet_uint(); XV_ASSUME(in_cnt <= CAP);
+  in_fin = nondet_bool(); in_gap = nondet_uint(); XV_ASSUME(in_gap <= G); if (!in_fin) XV_ASSUME(in_gap == 0);
+  if (!Finalizable) XV_ASSUME(!in_fin);        /* rings used with enqueue<.,false> are never finalized (free rings, both rings of the bounded queue) */
+  in_th = (int64_t)nondet_u64(); XV_ASSUME(in_cnt > 0 ? in_th == 3 * CAP - 1 : (in_th >= -1 && in_th <= 3 * CAP - 1));
+  for (unsigned i = 0; i < CAP; i++) { in_val[i] = nondet_u64(); XV_ASSUME(in_val[i] < CAP); }
+  for (unsigned d = 0; d < N; d++) { in_oc[d] = nondet_u64(); in_safe[d] = nondet_bool(); }
+}
+static void build(struct scq* q) {
+  size_t rs = RS();
+  q->_head = in_H << 1; q->_tail = ((in_H + in_cnt + in_gap) << 1) | (in_fin ? 1 : 0); q->_threshold = in_th; q->xv_alloc = N;
+  for (unsigned d = 0; d < N; d++) {
+    index_t pos2 = (in_H + d) << 1, slot = scq_remap_index(pos2, rs, N), cyc = pos2 | MASK;
+    if (d < in_cnt) q->_data[slot] = (cyc & ~MASK) | (in_safe[d] ? N : 0) | in_val[d];
+    else {
+      uint64_t oc = in_oc[d];
+      XV_ASSUME((oc & MASK) == MASK && (oc == ~(uint64_t)0 || oc < cyc));
+      q->_data[slot] = in_safe[d] ? oc : (oc ^ N);
+    }
+  }
+}
+static void abs_of_inputs(struct ring_abs* a) { a->cnt = in_cnt; a->fin = in_fin; for (unsigned i = 0; i < CAP; i++) a->vals[i] = in_val[i]; }
+/* checker: the concrete ring satisfies Inv_S and represents a; returns H and the gap */
+static _Bool represents(const struct scq* q, const struct ring_abs* a, uint64_t* Hout, uint64_t* gapout) {   /* a->fin is checked by the callers (scq.finalized.stable) */
+  size_t rs = RS();
+  if (q->_head & 1) return 0;
+  uint64_t H = q->_head >> 1, T = q->_tail >> 1; _Bool fin = q->_tail & 1;
+  *Hout = H;
+  if (a->cnt > CAP) return 0;
+  if (T < H + a->cnt) return 0;
+  uint64_t gap = T - H - a->cnt; *gapout = gap;
+  if (!fin && gap != 0) return 0;
+  if (H >= MAXPOS + 64 || gap > (uint64_t)G + 64) return 0;
+  for (unsigned d = 0; d < N; d++) {
+    index_t pos2 = (H + d) << 1, slot = scq_remap_index(pos2, rs, N), cyc = pos2 | MASK;
+    uint64_t e = q->_data[slot], ec = e | MASK;
+    if (d < a->cnt) { if (ec != cyc) return 0; if ((e & (N - 1)) != a->vals[d]) return 0; }
+    else { if ((e & (N - 1)) != N - 1) return 0; if (!(ec == ~(uint64_t)0 || ec < cyc)) return 0; }
+  }
+  if (a->cnt > 0 ? q->_threshold != 3 * CAP - 1 : !(q->_threshold >= -1 && q->_threshold <= 3 * CAP - 1)) return 0;
+  return 1;
+}
+
+/* ------------------------------------------------------------------ remap_index / calc_remap_shift, all capacities 2^0..2^32 */
+void h_remap(void) {
+  unsigned c = nondet_uint(); XV_ASSUME(c <= 32);
+  size_t cap = (size_t)1 << c, n = 2 * cap;
+  size_t rs = scq_calc_remap_shift(cap);
+  XV_OBL("scq.remap.shift", rs == (c >= 3 ? c - 2 : 0));
+  uint64_t i = nondet_u64(), j = nondet_u64(); XV_ASSUME(i < n && j < n && i != j);
+  index_t ri = scq_remap_index(i << 1, rs, n), rj = scq_remap_index(j << 1, rs, n);
+  XV_OBL("scq.remap.bijective", ri < n && rj < n);
+  XV_OBL("scq.remap.bijective", ri != rj);
+  /* the slot depends only on the position modulo n, not on the cycle and not on the finalized bit */
+  uint64_t p = nondet_u64(); XV_ASSUME(p < MAXPOS);
+  XV_OBL("scq.remap.bijective", scq_remap_index(p << 1, rs, n) == scq_remap_index((p & (n - 1)) << 1, rs, n));
+  XV_OBL("scq.remap.bijective", scq_remap_index((p << 1) | 1, rs, n) == scq_remap_index(p << 1, rs, n));
+  if (c >= 3) XV_CANARY("remap.rotating"); else XV_CANARY("remap.identity");
+  if (c == 32) XV_CANARY("remap.max");
+}
+
+/* ------------------------------------------------------------------ the four initial states */
+static void check_init(struct scq* q, unsigned cnt, unsigned first) {
+  struct ring_abs a; a.cnt = cnt; a.fin = 0; for (unsigned i = 0; i < CAP; i++) a.vals[i] = first + i;
+  uint64_t H, gap;
+  XV_OBL("scq.init.inv", q->xv_alloc == N);
+  XV_OBL("scq.init.inv", represents(q, &a, &H, &gap));
+  XV_OBL("scq.init.inv", H == first && gap == 0 && (q->_tail & 1) == 0);
+}
+static void havoc_ring(struct scq* q) { q->_head = nondet_u64(); q->_tail = nondet_u64(); q->_threshold = (int64_t)nondet_u64(); q->xv_alloc = nondet_u64();
+  for (unsigned d = 0; d < N; d++) q->_data[d] = nondet_u64(); }
+void h_init_empty(void) { struct scq q; havoc_ring(&q); scq_ctor_empty(&q, CAP, RS()); check_init(&q, 0, 0);
+  XV_OBL("scq.init.inv", q._threshold == -1); XV_CANARY("init.empty"); }
+void h_init_full(void) { struct scq q; havoc_ring(&q); scq_ctor_full(&q, CAP, RS()); check_init(&q, CAP, 0); XV_CANARY("init.full"); }
+void h_init_first_used(void) { struct scq q; havoc_ring(&q); scq_ctor_first_used(&q, CAP, RS()); check_init(&q, 1, 0); XV_CANARY("init.first_used"); }
+void h_init_first_empty(void) { struct scq q; havoc_ring(&q); scq_ctor_first_empty(&q, CAP, RS()); check_init(&q, CAP - 1, 1); XV_CANARY("init.first_empty"); }
+
+/* ------------------------------------------------------------------ enqueue */
+void h_enq(void) {
+  struct scq q; struct ring_abs a, b; havoc_ring(&q); havoc_inputs();
+  XV_ASSUME(in_cnt < CAP);                      /* requires: the index being enqueued is outside the ring */
+  build(&q); abs_of_inputs(&a); b = a;
+  in_v = nondet_u64(); XV_ASSUME(in_v < CAP);
+  _Bool r = scq_enqueue(&q, in_v, CAP, RS());
+  _Bool ra = abs_enqueue(&b, in_v, Finalizable);
+  uint64_t H, gap;
+  XV_OBL("scq.enqueue.appends", r == ra);
+  XV_OBL("scq.enqueue.appends", represents(&q, &b, &H, &gap));
+  XV_OBL("scq.enqueue.appends", H == in_H && q.xv_alloc == N);
+  XV_OBL("scq.finalized.stable", (q._tail & 1) == in_fin);
+  if (r) { XV_OBL("scq.enqueue.appends", gap == in_gap); XV_CANARY("enq.appended"); if (in_cnt == CAP - 1) XV_CANARY("enq.last_free"); }
+  else {
+    XV_OBL("scq.enqueue.appends", gap == in_gap + 1);
+#if Finalizable
+    XV_CANARY("enq.finalized");
+#endif
+  }
+}
+
+/* ------------------------------------------------------------------ dequeue (+ catchup) */
+void h_deq(void) {
+  struct scq q; struct ring_abs a, b; havoc_ring(&q); havoc_inputs();
+  build(&q); abs_of_inputs(&a); b = a;
+  uint64_t out0 = nondet_u64(), out = out0, outa = out0;
+  _Bool r = scq_dequeue(&q, &out, CAP, RS());
+  _Bool ra = abs_dequeue(&b, &outa);
+  uint64_t H, gap; _Bool rep = represents(&q, &b, &H, &gap);
+  XV_OBL("scq.dequeue.empty_iff", r == ra);
+  XV_OBL("scq.finalized.stable", (q._tail & 1) == in_fin);
+  if (r) {
+    XV_OBL("scq.dequeue.takes_first", out == outa);
+    XV_OBL("scq.dequeue.takes_first", rep && H == in_H + 1 && gap == in_gap);
+    XV_CANARY("deq.took"); if (in_cnt == 1) XV_CANARY("deq.took_last");
+  } else {
+    XV_OBL("scq.dequeue.empty_iff", out == out0);
+    /* nothing is stored, head == tail again unless tickets of a finalized ring are still ahead and the threshold ran out */
+    XV_OBL("scq.inv.preserved", rep);
+    XV_OBL("scq.dequeue.empty_iff", H >= in_H && H <= in_H + in_gap + 1 && (in_th < 0 ? H == in_H : H > in_H));
+    XV_OBL("scq.dequeue.empty_iff", gap == 0 || (in_fin && q._threshold == -1));
+    if (in_th < 0) XV_CANARY("deq.empty_threshold"); else XV_CANARY("deq.empty_catchup");
+#if Finalizable
+    if (in_gap > 0 && in_th >= 0) XV_CANARY("deq.empty_gap");
+#endif
+  }
+}
+
+/* ------------------------------------------------------------------ finalize / set_threshold */
+void h_finalize(void) {
+  struct scq q; struct ring_abs a; havoc_ring(&q); havoc_inputs(); build(&q); abs_of_inputs(&a);
+  scq_finalize(&q); abs_finalize(&a);
+  uint64_t H, gap;
+  XV_OBL("scq.finalize.sets", represents(&q, &a, &H, &gap) && H == in_H && gap == in_gap && (q._tail & 1) == 1);
+  if (!in_fin) XV_CANARY("finalize.fresh");
+  int64_t v = 3 * CAP - 1; scq_set_threshold(&q, v);
+  XV_OBL("scq.finalize.sets", represents(&q, &a, &H, &gap) && q._threshold == v && (q._tail & 1) == 1);
+}
+
+/* ------------------------------------------------------------------ catchup on its own: tail behind head */
+void h_catchup(void) {
+  struct scq q; havoc_ring(&q);
+  uint64_t hp = nondet_u64(), tp = nondet_u64(); _Bool fin = nondet_bool();
+  XV_ASSUME(hp < MAXPOS && tp <= hp); if (!Finalizable) XV_ASSUME(!fin);
+  q._head = hp << 1; q._tail = (tp << 1) | fin;
+  uint64_t d0 = q._data[0], th0 = q._threshold;
+  scq_catchup(&q, q._tail, q._head);
+  XV_OBL("scq.catchup.restores", (q._tail >> 1) == hp && q._head == hp << 1 && q._data[0] == d0 && q._threshold == th0);
+  XV_OBL("scq.finalized.stable", (q._tail & 1) == fin);
+#if Finalizable
+  if (fin) XV_CANARY("catchup.finalized");
+#endif
+  if (!fin) XV_CANARY("catchup.plain");
+}
